@@ -1937,9 +1937,11 @@ class Store:
                     'the topology: %s', str(source), str(mismatch_schema))
 
             for port, subschema in schema.items():
-                if port == '_output':
-                    # A flag of the port (consumed by schema_topology),
-                    # not a sub-port.
+                if port in ('_output', '_divider'):
+                    # A flag of the port (consumed by schema_topology) or
+                    # its branch-level divider, not a sub-port.
+                    if port == '_divider':
+                        self._apply_config({'_divider': subschema})
                     continue
                 path = topology.get(port, (port,))
 
